@@ -472,10 +472,69 @@ void gen_c07(Gen &g) {
 
 // ---------------------------------------------------------------------------------------------------
 // C13: chunk fitting
+// enumerates the (chunk size c, position mod c, instruction length L) space: run index -> triple
+bool triple_of_run(long run, long *c, long *pos, long *L) {
+  long idx = run;
+  for (long cc = 2; cc <= 48; cc++) {
+    long n = cc * 14;
+    if (idx < n) {
+      *c = cc;
+      *pos = idx / 14;
+      *L = idx % 14 + 1;
+      return true;
+    }
+    idx -= n;
+  }
+  return false;
+}
+const long TRIPLES_TOTAL = 14 * (48 * 49 / 2 - 1);  // sum over c = 2..48 of 14 c
+
+void gen_triple(Gen &g, bool counting) {
+  Rng &r = g.r;
+  Plan &p = g.p;
+  long c = 2, pos = 0, L = 1;
+  triple_of_run(p.run % TRIPLES_TOTAL, &c, &pos, &L);
+  Task t;
+  t.ops.push_back(mk_create(g, 0, r.chance(1, 8) ? -1 : 1024));
+  if (r.chance(1, 4)) {
+    int o = (int)r.below(12);
+    emit_opts(g, t, 0, o / 4, (o / 2) & 1, o & 1);
+  }
+  if (!counting) {
+    Op ch = g.mk(OP_CHUNK, 0);
+    ch.c = c;
+    t.ops.push_back(ch);
+  }
+  // reach an absolute position congruent to pos by nop lines that never cross a boundary themselves
+  long want = pos + c * r.range(0, 3), at = 0;
+  std::vector<std::string> pre;
+  while (at < want) {
+    long step = std::min<long>(std::min<long>(want - at, 11), c - at % c);
+    pre.push_back(step == 1 ? "nop" : "nop" + std::to_string(step));
+    at += step;
+  }
+  if (!pre.empty()) {
+    Op a = g.mk(OP_ASM, 0);
+    a.lines = pre;
+    t.ops.push_back(a);
+  }
+  const auto &cand = corpus_by_len((int)L);
+  Op b = g.mk(counting ? OP_COUNT : OP_ASM, 0);
+  b.c = c;
+  b.lines.push_back(cand.empty() ? pick_instr(r) : line_text(r.pick(cand)));
+  for (int i = 0, e = (int)r.below(3); i < e; i++) b.lines.push_back(pick_instr(r));
+  t.ops.push_back(b);
+  p.tasks.push_back(t);
+}
+
 void gen_c13(Gen &g) {
   Rng &r = g.r;
   Plan &p = g.p;
   p.world.mem_policy = (int)r.below(3);
+  if (p.variant == "triples") {
+    gen_triple(g, false);
+    return;
+  }
   Task t;
   unsigned style = (unsigned)r.below(8);
   if (style == 0) {
@@ -548,6 +607,10 @@ void gen_c14(Gen &g) {
   Rng &r = g.r;
   Plan &p = g.p;
   p.world.mem_policy = (int)r.below(3);
+  if (p.variant == "triples") {
+    gen_triple(g, true);
+    return;
+  }
   Task t;
   bool internal = r.chance(1, 4);
   long n = internal ? -1 : r.range(300, 4096);
@@ -632,8 +695,80 @@ void gen_c14(Gen &g) {
 
 // ---------------------------------------------------------------------------------------------------
 // C15: history independence
+// bounded-exhaustive histories: every sequence of three operations from a small alphabet, followed by
+// set_offset + a final assemble that is repeated on a fresh instance (run index -> history)
+void gen_c15_enum(Gen &g) {
+  Rng &r = g.r;
+  Plan &p = g.p;
+  const int A = 24;
+  long idx = p.run % ((long)A * A * A);
+  int sel[3] = {(int)(idx % A), (int)((idx / A) % A), (int)(idx / ((long)A * A))};
+  Task t;
+  bool internal = (p.run / ((long)A * A * A)) % 3 == 2;
+  long n = internal ? -1 : 300;
+  t.ops.push_back(mk_create(g, 0, n));
+  InstModel m;
+  m.reset_created(!internal, internal ? 0 : n);
+  bool other_live = false;
+  for (int i = 0; i < 3; i++) {
+    int a = sel[i];
+    if (a < 10) {  // setters
+      static const int W[10] = {0, 0, 0, 1, 1, 2, 3, 4, 4, 4}, Vv[10] = {0, 1, 2, 0, 1, 0, 0, 0, 2, 77};
+      Op o = g.mk(OP_SETTER, 0);
+      o.which = W[a];
+      o.value = Vv[a];
+      t.ops.push_back(o);
+      m.apply_setter(o.which, o.value);
+    } else if (a < 13) {  // fitting on (two sizes) / off
+      Op o = g.mk(OP_CHUNK, 0);
+      o.c = a == 10 ? 8 : a == 11 ? 21 : 0;
+      t.ops.push_back(o);
+      m.apply_chunk(o.c);
+    } else if (a < 17) {  // assemble: ok / rejected line first / rejected line last / too long for the buffer
+      Op o = g.mk(OP_ASM, 0);
+      if (a == 16 && !internal)
+        o.lines = gen_program(r, 70, 0, -1);
+      else
+        o.lines = gen_program(r, (int)r.range(1, 5), 0, a == 13 ? -1 : a == 14 ? 0 : 2);
+      t.ops.push_back(o);
+    } else if (a < 20) {  // counting: ok (c>=2) / failing / c<2
+      Op o = g.mk(OP_COUNT, 0);
+      o.c = a == 19 ? 1 : r.range(2, 24);
+      o.lines = gen_program(r, (int)r.range(1, 5), 0, a == 18 ? 1 : -1);
+      t.ops.push_back(o);
+    } else if (a == 20 || a == 21) {
+      Op o = g.mk(OP_DEBUG, 0);
+      o.on = a == 20;
+      t.ops.push_back(o);
+    } else if (a == 22) {  // another instance appears / disappears
+      if (!other_live)
+        t.ops.push_back(mk_create(g, 1, 100));
+      else
+        t.ops.push_back(g.mk(OP_DESTROY, 1));
+      other_live = !other_live;
+    } else {
+      Op o = g.mk(OP_OFFSET, 0);
+      o.k = 0;
+      t.ops.push_back(o);
+    }
+  }
+  Op so = g.mk(OP_OFFSET, 0);
+  so.k = internal ? 0 : (long)r.below(3) * 7;
+  t.ops.push_back(so);
+  Op fin = g.mk(r.chance(1, 5) && m.chunk == 0 ? OP_COUNT : OP_ASM, 0);
+  fin.c = r.range(2, 24);
+  fin.lines = gen_program(r, (int)r.range(1, 8), r.coin() ? 4 : 0, r.chance(1, 8) ? 1 : -1);
+  fin.fresh_twin = true;
+  t.ops.push_back(fin);
+  p.tasks.push_back(t);
+}
+
 void gen_c15(Gen &g) {
   Rng &r = g.r;
+  if (g.p.variant == "enum") {
+    gen_c15_enum(g);
+    return;
+  }
   HistCfg cfg;
   cfg.w_asm = 40;
   cfg.w_count = 10;
